@@ -224,9 +224,20 @@ fn same_failure(r: &J, class: &str) -> bool {
     r.gs("outcome") == "violation" && r.gs("class") == class
 }
 
+/// Same violation class and, like the original, not explained by a listed known finding (a shrunk
+/// plan must not drift into a different, already known failure of the same class).
+fn same_new_failure(r: &J, class: &str, prop: &str, scn: &Scenario, known: &Known) -> bool {
+    if !same_failure(r, class) {
+        return false;
+    }
+    let v = obj! {"scenario" => scn.name, "class" => class, "msg" => r.gs("msg"),
+        "counters" => r.get("stats").and_then(|s| s.get("counters")).cloned().unwrap_or(J::Null)};
+    match_known(known, prop, &v).is_none()
+}
+
 /// Delta-debug the plan: a candidate is kept only if the same violation class recurs (tried under
 /// the original schedule seed and a few neighbours, since removing operations shifts the schedule).
-pub fn minimise(scn: &Scenario, plan: &J, sched_seed: u64, class: &str, budget_s: u64) -> (J, u64, u64) {
+pub fn minimise(scn: &Scenario, plan: &J, sched_seed: u64, class: &str, budget_s: u64, prop: &str, known: &Known) -> (J, u64, u64) {
     let start = Instant::now();
     let mut best = plan.clone();
     let mut best_seed = sched_seed;
@@ -253,7 +264,7 @@ pub fn minimise(scn: &Scenario, plan: &J, sched_seed: u64, class: &str, budget_s
                     scn.wall_ms,
                     true,
                 );
-                if same_failure(&r, class) {
+                if same_new_failure(&r, class, prop, scn, known) {
                     hit = Some(ss);
                     break;
                 }
@@ -300,7 +311,7 @@ pub fn minimise(scn: &Scenario, plan: &J, sched_seed: u64, class: &str, budget_s
             scn.wall_ms,
             true,
         );
-        if same_failure(&r, class) {
+        if same_new_failure(&r, class, prop, scn, known) {
             let sw = r.get("stats").map_or(u64::MAX, |s| s.gu("switches"));
             if sw < best_sw {
                 best_sw = sw;
@@ -486,7 +497,7 @@ pub fn batch(prop: &'static Prop, tier: Tier, base_seed: u64, jobs: u64) -> i32 
         let seed = v.gu("seed");
         let plan = plan_for(scn, seed, tier);
         let budget = if tier == Tier::Quick { 25 } else { 90 };
-        let (mp, ms, tried) = minimise(scn, &plan, seed, v.gs("class"), budget);
+        let (mp, ms, tried) = minimise(scn, &plan, seed, v.gs("class"), budget, prop.id, &known);
         let path = write_replay(prop.id, scn, &mp, ms, seed, v.gs("class"), tried)
             .or_else(|| write_replay(prop.id, scn, &plan, seed, seed, v.gs("class"), 0));
         match path {
